@@ -3,7 +3,12 @@
 From Coq Require Import Bool List NArith ZArith Lia.
 From M Require ErrSpec.
 From M Require Tie.
+From M Require SystErr.
+From M Require ErrSpec.
+From M Require FifoProof.
 From M Require FmtModel.
+From M Require HeapProof.
+From M Require QStatic.
 Import ListNotations.
 
 Module T_quoted_part. Import ErrSpec. Local Open Scope bool_scope. Local Open Scope Z_scope.
@@ -60,4 +65,31 @@ Theorem C18_tie_config :
 Proof. exact (@Tie.tie_config). Qed.
 End T_tie_config.
 Definition C18_tie_config := @T_tie_config.C18_tie_config.
+
+Module T_systerr_response. Import SystErr. Local Open Scope bool_scope. Local Open Scope Z_scope.
+Import FifoProof HeapProof QStatic FmtModel ErrSpec. Local Open Scope Z_scope.
+Theorem C18_systerr_response :
+  forall s,
+  ErrQueue.QInv s ->
+  let '(_, (code, text)) := ErrQueue.spec_pop (ErrQueue.absq s) in
+  nonul (Glue.descz code) -> (forall t, text = Some t -> nonul t) -> Generated.gen_desc_max = 255 ->
+  snd (Glue.eq_systerr s) =
+  fst (fst (int2str 32 code 33 10 true)) ++ [44; 34] ++ esc (take_fit 255 (whole (Glue.descz code) text)) ++ [34].
+Proof. exact (@SystErr.systerr_response). Qed.
+End T_systerr_response.
+Definition C18_systerr_response := @T_systerr_response.C18_systerr_response.
+
+Module T_systerr_static. Import SystErr. Local Open Scope bool_scope. Local Open Scope Z_scope.
+Import FifoProof HeapProof QStatic FmtModel ErrSpec. Local Open Scope Z_scope.
+Theorem C18_systerr_static :
+  forall s st es,
+  QH s st es ->
+  let '(s', out) := Glue.hq_systerr s in
+  match es with
+  | [] => out = result_error 0 (Glue.descz 0) None Generated.gen_desc_max /\ QH s' st []
+  | (c, tx) :: r => out = result_error c (Glue.descz c) tx Generated.gen_desc_max /\ exists st', QH s' st' r
+  end.
+Proof. exact (@SystErr.systerr_static). Qed.
+End T_systerr_static.
+Definition C18_systerr_static := @T_systerr_static.C18_systerr_static.
 
